@@ -111,10 +111,20 @@ def check_case(case):
     obj_label = {index[e]: [objs[i] for i in range(o.n) if o.cl([i]) == e] for e in exts}
     prop_label = {index[e]: [props[j] for j in range(o.m) if o.dn([j]) == e] for e in exts}
 
-    for mode in ('default', 'custom'):
+    for mode in ('default', 'custom', 'blank'):
         calls = {'o': [], 'p': []}
         if mode == 'default':
             dot = ctx.lattice.graphviz()
+        elif mode == 'blank':
+            # a callback may produce an empty text: the label is still attached (precisely when the concept carries names)
+            def make_o(names, _c=calls['o']):
+                _c.append(list(names))
+                return ''
+
+            def make_p(names, _c=calls['p']):
+                _c.append(list(names))
+                return '' if len(names) % 2 else custom_label(names)
+            dot = ctx.lattice.graphviz(make_object_label=make_o, make_property_label=make_p)
         else:
             def make_o(names, _c=calls['o']):
                 _c.append(list(names))
@@ -163,9 +173,10 @@ def check_case(case):
         for i in range(N):
             if obj_label[i]:
                 exp_loops.append(('c%d' % i, 'headlabel', ' '.join(obj_label[i]) if mode == 'default'
-                                  else custom_label(obj_label[i])))
+                                  else '' if mode == 'blank' else custom_label(obj_label[i])))
             if prop_label[i]:
                 exp_loops.append(('c%d' % i, 'taillabel', ' '.join(prop_label[i]) if mode == 'default'
+                                  else ('' if len(prop_label[i]) % 2 else custom_label(prop_label[i])) if mode == 'blank'
                                   else custom_label(prop_label[i]) + '!'))
         for a, attrs in loops:
             kinds = [k for k in LABEL_KEYS if k in attrs]
